@@ -9,7 +9,7 @@
    ====================================================================================== *)
 From Coq Require Import List ZArith NArith String Bool Lia.
 From SCC Require Import Base.Sexp Lang.SynUtil Lang.FunSyn Lang.FunTy Lang.CoreSyn.
-From SCC Require Import Model.Fun2Core Proof.Fun2CoreProof Proof.Fun2CoreTfv.
+From SCC Require Import Sem.AxSem Sem.FunSem Model.Fun2Core Proof.Fun2CoreProof Proof.Fun2CoreTfv.
 Import ListNotations.
 Open Scope string_scope.
 Open Scope list_scope.
@@ -470,6 +470,13 @@ Section Frag.
   (* the fragment for which the simulation is proved: everything except codata (new, destructor
      calls, codata-typed let-bindings and arguments: the by-name part of the language) and calls of
      `main` (mis-translated, see the finding call-to-main) *)
+  Definition arg_chi (y : fterm) : fchi := match y with FVar _ _ (Some FCns) => FCns | _ => FPrd end.
+  (* the kinds of the arguments of a call are those of the callee's parameters *)
+  Definition call_kinds (f : fname) (args : list fterm) : bool :=
+    match ffind_def p f with
+    | Some d => list_eqb fchi_eqb (map arg_chi args) (map fbchi (fdctx d))
+    | None => true
+    end.
   Fixpoint frag (t : fterm) : bool :=
     let arg_ok := fun (y : fterm) =>
       match y with
@@ -482,12 +489,13 @@ Section Frag.
     | FIfC _ a b t1 t2 _ => frag a && (match b with Some b' => frag b' | None => true end) && frag t1 && frag t2
     | FPrint _ a next _ => frag a && frag next
     | FLet _ vty bound body _ => negb (f_is_codata p vty) && frag bound && frag body
-    | FCall f args _ => negb (String.eqb f "main") && forallb arg_ok args
-    | FCtor _ args _ => forallb arg_ok args
+    | FCall f args _ => negb (String.eqb f "main") && call_kinds f args && forallb arg_ok args
+    | FCtor _ args _ => forallb (fun y => negb (is_cns_var y)) args && forallb arg_ok args
     | FCase scrut _ cls _ =>
         frag scrut
         && forallb (fun c => match c with FClause _ _ names ctx body =>
-                                list_eqb String.eqb names (fvars ctx) && frag body end) cls
+                                list_eqb String.eqb names (fvars ctx)
+                                && forallb (fun b => fchi_eqb (fbchi b) FPrd) ctx && frag body end) cls
     | FLabel _ t' ty => data_ty ty && frag t'
     | FGoto _ t' _ => frag t'
     | FExit a _ => frag a
